@@ -11,7 +11,8 @@ import (
 // document.
 type DocxOptions struct {
 	// Neutral lists inline containers ("link", "ins", "sdt", "smart") that
-	// are written in their neutral form: the runs directly in the paragraph.
+	// are written in their neutral form: the runs directly in the paragraph;
+	// "blocksdt": a block-level content control is written as its bare paragraph.
 	// The logical document (tokens, order, structure) is unchanged.
 	Neutral map[string]bool
 	Store   bool // ZIP Stored instead of Deflate
@@ -78,7 +79,13 @@ func WriteDocx(d *logical.Doc, o DocxOptions) []byte {
 			if d.HasStyles {
 				style = o.BodyStyle
 			}
-			body.WriteString(w.para(b.Para, pPr(style, 0, -1, -1)))
+			px := w.para(b.Para, pPr(style, 0, -1, -1))
+			if b.Wrap == "container" && !o.Neutral["blocksdt"] {
+				// block-level content control (CT_SdtBlock) around the paragraph
+				w.ids++
+				px = fmt.Sprintf(`<w:sdt><w:sdtPr><w:id w:val="%d"/></w:sdtPr><w:sdtContent>%s</w:sdtContent></w:sdt>`, 7000+w.ids, px)
+			}
+			body.WriteString(px)
 		case logical.BHeading:
 			h := b.Heading
 			sid := ""
@@ -369,6 +376,11 @@ func DocxFeatures(d *logical.Doc) map[string]bool {
 			case "link", "ins", "sdt", "smart":
 				m["docx.inline="+r.Wrap] = true
 			}
+		}
+	}
+	for i := range d.Blocks {
+		if d.Blocks[i].Wrap == "container" {
+			m["docx.block=sdt"] = true
 		}
 	}
 	return m
